@@ -6,14 +6,18 @@ func init() {
 		"These are necessary for race-freedom and atomicity (hence linearizability) of Get/Put. Not decided: the sequential LRU semantics (eviction order, capacity accounting); container/list is trusted.",
 		"container/list trusted and known to be unsynchronised; frozen guarded-by table and mutator-name table", "DESIGN.md §3 R-LOCKS; §4 C35",
 		func(c *Ctx) {
-			c.load("lib/utils/lru-cache")
+			c.load("lib/utils/lru-cache", "pkg/trie/cache/inmemory")
+			c.ruleLRUSeq()
+			c.min("R-LRUSEQ", 4)
+			c.ruleCacheTTL()
+			c.min("R-TTL", 1)
 			c.doc("R-LOCKS", "L1 read under lock, L2 write under exclusive lock, L3 no re-acquisition, L4 single critical section; table: LRUCache{cache,lruList} guarded by embedded sync.RWMutex")
 			c.ruleLocks(lockSpec{dir: "lib/utils/lru-cache", typ: "LRUCache", guarded: []string{"cache", "lruList"}, rule: "R-LOCKS", l5: true})
 			c.min("R-LOCKS/L1", 2)
 			c.min("R-LOCKS/L2", 5)
 			c.min("R-LOCKS/L4", 2)
 			c.assume("container/list is not itself synchronised and its mutators are exactly the tabled method names")
-			c.notDecides("sequential LRU behaviour (which entry is evicted, recency order)")
+			c.notDecides("container/list's own behaviour; ccache's batch pruning (it is never a strict LRU); values of the sequential histories beyond the shape of Get/Put (R-LRUSEQ)")
 		})
 	register("C34", "guarded-by must-hold lock dataflow on SSA (R-LOCKS L1-L5) + comparator truth-table evaluation + FIFO-counter/duplicate dominance rules", "Static guarded-by analysis of transaction.PriorityQueue (+ comparator table for priorityQueue.Less). "+
 		"Decides: all accesses to pq/txs/currOrder are under the Mutex (L1/L2), no re-entrant locking (L3), one critical section per operation (L4), duplicates test dominates heap.Push under the same lock, Less == (priority desc, order asc). "+
